@@ -1236,6 +1236,10 @@ func (s *Server) processPubrel(cl *Client, pk packets.Packet) error {
 
 // processPubcomp processes a Pubcomp packet, denoting completion of a QOS 2 packet sent from the server.
 func (s *Server) processPubcomp(cl *Client, pk packets.Packet) error {
+	if _, ok := cl.State.Inflight.Get(pk.PacketID); !ok {
+		return nil // no such exchange: nothing to complete, and no quota to give back
+	}
+
 	// regardless of whether the pubcomp is a success or failure, we end the qos flow, delete inflight, and restore the quotas.
 	cl.State.Inflight.IncreaseReceiveQuota() // +1 RECV QUOTA
 	cl.State.Inflight.IncreaseSendQuota()    // +1 SENT QUOTA
